@@ -678,6 +678,8 @@ def evaluate(prop, queries, results, known, tier, seed, t0, extra_cov=None, skip
     if obligations == 0 and rc == 0:
         log('no obligations generated for %s: broken check' % prop)
         rc = 2
+    if SELFCHECK_INCOMPLETE and rc == 0:
+        rc = 2
     ev = {
         'property_id': prop, 'tier': tier, 'seed': seed, 'level': level,
         'coverage': {
@@ -815,10 +817,20 @@ def native_replay(prop, q, rec):
 # property drivers
 # ----------------------------------------------------------------------------------------------
 
+SELFCHECK_INCOMPLETE = False
+
+
 def selfcheck_summary(db, tier, seed):
     r = native.selfcheck(db, nev=100 if tier == 'quick' else 1000, seed=seed)
-    return {'tasks': r['tasks'], 'events_compared_bit_for_bit': r['events'], 'differences': len(r['diffs']),
-            'first_differences': [list(map(str, d)) for d in r['diffs'][:5]], 'wall_s': round(r['wall_s'], 1)}
+    hard = [d for d in r['diffs'] if not (d and d[0] == 'exit' and str(d[1]) == '124' and str(d[2]) == '124')]
+    global SELFCHECK_INCOMPLETE
+    SELFCHECK_INCOMPLETE = bool(r['diffs']) and not hard
+    if SELFCHECK_INCOMPLETE:
+        # both native builds ran into the time limit on the same tasks (a generator that no longer terminates): the rendering
+        # is not contradicted; the obligations are still decided, but a run without violations ends in exit 2, not 0
+        log('extraction self-check incomplete: %d native task groups did not finish on either build' % len(r['diffs']))
+    return {'tasks': r['tasks'], 'events_compared_bit_for_bit': r['events'], 'differences': len(hard), 'did_not_finish': len(r['diffs']) - len(hard),
+            'first_differences': [list(map(str, d)) for d in (hard or r['diffs'])[:5]], 'wall_s': round(r['wall_s'], 1)}
 
 
 def f77c_crosscheck(tier):
